@@ -279,8 +279,9 @@ def replay(d):
             s[n] = [rng.randint(lo, hi) for _ in range(3)] if r == "arr" else (
                 bool(rng.randint(0, 1)) if r == "bool" else rng.randint(0, 2) if n in pg.loop_bound_vars(prog) else rng.randint(lo, hi))
         stores.append(s)
-    for conc in stores:
-        funcs = backends.concrete_user_functions(d.get("ufs") or {})
+    for conc, generic in [(c, False) for c in stores] + [(c, True) for c in stores]:
+        # second pass: user functions that never return 0 (see backends.generic_user_functions)
+        funcs = backends.generic_user_functions() if generic else backends.concrete_user_functions(d.get("ufs") or {})
         import numpy as np
         funcs["<builtin>len"] = lambda x: np.size(x)
         funcs["<builtin>norm_2"] = lambda x: abs(x) if np.isscalar(x) else np.linalg.norm(x, 2)
